@@ -102,6 +102,15 @@ def vname(alg, opts):
     return f"cvo.{'aux' if opts['aux'] else 'noaux'}.{opts['method']}"
 
 
+def enc_amps(amps):
+    """JSON form (replay payloads) that keeps the Python type of each amplitude: [re, im] = complex, [re] = float"""
+    return [[float(a.real), float(a.imag)] if isinstance(a, complex) else [float(a)] for a in amps]
+
+
+def dec_amps(xs):
+    return [complex(x[0], x[1]) if len(x) == 2 else float(x[0]) for x in xs]
+
+
 def dhash(keys, amps):
     h = hashlib.sha1((",".join(keys) + "|" + ",".join(f"{a.real:.6f}{a.imag:+.6f}" for a in amps)).encode()).hexdigest()[:8]
     return h
@@ -123,6 +132,20 @@ def amplitudes(ctx, m, kind):
             v = [complex(-r.uniform(0.2, 1.0), 0.0) for _ in range(m)]
         elif kind == "uniform":
             v = [complex(1.0, 0.0)] * m
+        elif kind in ("fpos", "fsigned", "fneg", "fmixed"):
+            # Python floats (not complex) as dictionary values; fmixed: some entries float, some complex in the same
+            # dictionary (the base class converts them with complex(.) in validate_parameter)
+            sg = {"fpos": [1], "fneg": [-1], "fsigned": [-1, 1], "fmixed": [-1, 1]}[kind]
+            v = [r.choice(sg) * r.uniform(0.2, 1.0) for _ in range(m)]
+            if kind == "fsigned" and m >= 2:
+                v[0], v[1] = -abs(v[0]), abs(v[1])
+            if kind == "fmixed":
+                v = [x if i % 2 == 0 else complex(r.gauss(0, 1), r.gauss(0, 1)) for i, x in enumerate(v)]
+            nrm = math.sqrt(sum(abs(z) ** 2 for z in v))
+            v = [z / nrm if isinstance(z, complex) else float(z / nrm) for z in v]
+            if min(abs(z) for z in v) >= 0.02 / math.sqrt(m) * 3:
+                return v
+            continue
         else:
             v = [complex(r.gauss(0, 1), r.gauss(0, 1)) for _ in range(m)]
             if kind == "mixed":   # some exactly real, some exactly imaginary, some negative real
@@ -165,15 +188,40 @@ def valid(alg, opts, m):
 # real code
 # ----------------------------------------------------------------------------------------------
 
-def build(alg, opts, d):
+DEFAULT_OPTS = {"merge": {}, "pivot": {"aux": False}, "cvo": {"aux": True, "method": "linear"}}
+FORMS = ("none", "empty", "label", "static", "static-qubits")
+
+
+def build(alg, opts, d, form="opt", wires=None, width=None):
+    """form: how the gate is requested.  'opt' = explicit options (the bulk of the cases); 'none' / 'empty' = opt_params None / {}
+    (only meaningful when `opts` are the class defaults); 'label'; 'static' / 'static-qubits' = the class's static
+    `initialize(q_circuit, state, qubits)` on a host circuit (returns the host circuit's only instruction)."""
+    from qiskit import QuantumCircuit
     if alg == "merge":
-        from qclib.state_preparation.merge import MergeInitialize
-        return MergeInitialize(dict(d))
-    if alg == "pivot":
-        from qclib.state_preparation.pivot import PivotInitialize
-        return PivotInitialize(dict(d), opt_params={"aux": opts["aux"]})
-    from qclib.state_preparation.cvoqram import CvoqramInitialize
-    return CvoqramInitialize(dict(d), opt_params={"with_aux": opts["aux"], "mcg_method": opts["method"]})
+        from qclib.state_preparation.merge import MergeInitialize as cls
+        kw = {}
+    elif alg == "pivot":
+        from qclib.state_preparation.pivot import PivotInitialize as cls
+        kw = {"opt_params": {"aux": opts["aux"]}}
+    else:
+        from qclib.state_preparation.cvoqram import CvoqramInitialize as cls
+        kw = {"opt_params": {"with_aux": opts["aux"], "mcg_method": opts["method"]}}
+    if form in ("none", "empty"):
+        assert opts == DEFAULT_OPTS[alg]
+        if alg != "merge":
+            kw = {"opt_params": None if form == "none" else {}}
+    if form == "label":
+        return cls(dict(d), label="psi", **kw)
+    if form in ("static", "static-qubits"):
+        host = QuantumCircuit(width if form == "static" else width + 1)
+        if form == "static":
+            cls.initialize(host, dict(d), **kw)
+        else:
+            cls.initialize(host, dict(d), qubits=list(wires), **kw)
+        gate = host.data[0].operation
+        gate._c06_host = host
+        return gate
+    return cls(dict(d), **kw)
 
 
 def layout(alg, opts, n, m):
@@ -198,36 +246,40 @@ def _hangs(ctx):
 
 def payload(alg, opts, keys, amps, extra=None):
     p = {"call": vname(alg, opts), "alg": alg, "opts": opts, "keys": list(keys),
-         "amps": [[float(a.real), float(a.imag)] for a in amps]}
+         "amps": enc_amps(amps)}
     if extra:
         p.update(extra)
     return p
 
 
-def oracle_case(ctx, alg, opts, keys, amps, kind):
+def oracle_case(ctx, alg, opts, keys, amps, kind, form="opt", wires=None):
     """Statevector(definition) vs the dictionary embedded in the full register (auxiliaries |0>)."""
     from qiskit.quantum_info import Statevector
     n, m = len(keys[0]), len(keys)
     name = vname(alg, opts)
-    tag = f"n={n}:m={m}:{kind}:{dhash(keys, amps)}"
+    tag = f"n={n}:m={m}:{kind}:{dhash(keys, amps)}" + ("" if form == "opt" else f":form={form}")
+    fextra = None if form == "opt" else {"form": form, "wires": wires}
+
+    def pl(alg, opts, keys, amps, extra=None):     # replay must rebuild the same entry form
+        return payload(alg, opts, keys, amps, dict(extra or {}, **(fextra or {})))
     d = dict(zip(keys, amps))
     if _hangs(ctx).get(name, 0) >= 2:     # circuit breaker: already reported twice as non-terminating
         return
     try:
         with time_limit(BUILD_LIMIT_S):
-            gate = build(alg, opts, d)
+            gate = build(alg, opts, d, form, wires, layout(alg, opts, n, m)[0])
             circ = gate.definition
     except Hang as e:
-        ctx.fail(f"{name}:hangs:{tag}", f"construction does not terminate ({e})", payload(alg, opts, keys, amps))
+        ctx.fail(f"{name}:hangs:{tag}", f"construction does not terminate ({e})", pl(alg, opts, keys, amps))
         _hangs(ctx)[name] = _hangs(ctx).get(name, 0) + 1
         return
     except Exception as e:  # construction must not fail on a valid input
         ctx.fail(f"{name}:raises:{type(e).__name__}:{tag}", f"construction raised {type(e).__name__}: {e}",
-                 payload(alg, opts, keys, amps))
+                 pl(alg, opts, keys, amps))
         return
     width, idx = layout(alg, opts, n, m)
     if circ.num_qubits != width:
-        ctx.fail(f"{name}:width:{tag}", f"definition has {circ.num_qubits} qubits, expected {width}", payload(alg, opts, keys, amps))
+        ctx.fail(f"{name}:width:{tag}", f"definition has {circ.num_qubits} qubits, expected {width}", pl(alg, opts, keys, amps))
         return
     sv = np.asarray(Statevector(circ).data)
     exp = np.zeros(2 ** width, dtype=complex)
@@ -235,6 +287,22 @@ def oracle_case(ctx, alg, opts, keys, amps, kind):
         exp[idx(k)] = a
     err = np.abs(sv - exp)
     worst = float(err.max())
+    if form != "opt":
+        ctx.count(f"branch:entry-form:{name}:{form}")
+    host = getattr(gate, "_c06_host", None)
+    if host is not None and worst <= TOL:
+        # the instruction sits on the requested wires and the host circuit carries the state there
+        ws = list(range(width)) if form == "static" else list(wires)
+        got = [host.find_bit(q).index for q in host.data[0].qubits]
+        hv = np.asarray(Statevector(host).data)
+        hexp = np.zeros(2 ** host.num_qubits, dtype=complex)
+        for i in np.nonzero(exp)[0]:
+            hexp[sum(((int(i) >> b) & 1) << ws[b] for b in range(width))] = exp[i]
+        herr = float(np.abs(hv - hexp).max())
+        if got != ws or herr > TOL:
+            ctx.fail(f"{name}:static-wiring:{tag}", f"initialize(...) appended on wires {got} (asked {ws}); host state error {herr:.3e}",
+                     pl(alg, opts, keys, amps))
+            return
     if worst <= TOL:
         ctx.ok(f"{name}:{tag}", nontrivial=m >= 2,
                sample={"variant": name, "n": n, "m": m, "kind": kind, "keys": keys[:6], "worst_abs_err": worst})
@@ -256,13 +324,14 @@ def oracle_case(ctx, alg, opts, keys, amps, kind):
     else:
         i = int(np.argmax(err * mask_listed))
         what, det = "listed-amplitude", f"basis {i:0{width}b}: got {sv[i]:.6f} expected {exp[i]:.6f}"
-    ctx.fail(f"{name}:{what}:{tag}", f"{det}; worst abs err {worst:.3e}", payload(alg, opts, keys, amps, {"worst_abs_err": worst}))
+    ctx.fail(f"{name}:{what}:{tag}", f"{det}; worst abs err {worst:.3e}", pl(alg, opts, keys, amps, {"worst_abs_err": worst}))
 
 
 def tie_case(ctx, alg, opts, keys, amps):
     from props import c06_trace as T
     n = len(keys[0])
     d = dict(zip(keys, amps))
+    # Initialize.validate_parameter turns every amplitude into a Python complex before the algorithms see it
     op = {"op": alg, "n": n, "keys": list(keys), "amps": [[float(a.real), float(a.imag)] for a in amps]}
     if _hangs(ctx).get(vname(alg, opts), 0) >= 2:
         return
@@ -462,11 +531,115 @@ def branch_coverage_cases(ctx, variants):
                 oracle_case(ctx, alg, opts, keys, amps, kind)
 
 
+def float_typed_cases(ctx, variants):
+    """dictionaries whose values are Python floats (positive, negative, mixed signs) or a mixture of floats and complex.
+    Observation recorded by the audit: Initialize.validate_parameter converts every value with complex(.), so the
+    algorithms never see a float original (the float branch of util._compute_matrix_angles is probed directly below)."""
+    quick = ctx.quick
+    sizes = [(2, 3), (3, 5), (4, 6)] + ([] if quick else [(3, 8), (4, 11), (5, 9), (5, 20), (6, 12)])
+    for n, m in sizes:
+        for kind in ("fsigned", "fneg", "fmixed") if quick else ("fpos", "fsigned", "fneg", "fmixed"):
+            sub = ctx.rng.sample(all_keys(n), m)
+            for alg, opts in variants + [v for v in ORACLE_EXTRA if v not in variants][:1]:
+                if not valid(alg, opts, m):
+                    continue
+                keys = order_for(ctx, alg, sub)
+                amps = amplitudes(ctx, m, kind)
+                if (alg, opts) in variants:
+                    tie_case(ctx, alg, opts, keys, amps)
+                oracle_case(ctx, alg, opts, keys, amps, kind)
+                ctx.count(f"branch:amplitude-type:{kind}:{alg}")
+
+
+def probe_matrix_angles(ctx):
+    """util._compute_matrix_angles is documented for 'Complex or float' features.  Through CvoqramInitialize only the complex
+    branch is reachable; the float branch and the clamp of verify_trigonometric_interval are probed on the function itself:
+    U(alpha, beta, phi)|1> must be (x/sqrt(norm))|0> + sqrt((norm-|x|^2)/norm)|1>."""
+    from qclib.util import _compute_matrix_angles
+    from qiskit.circuit.library import UGate
+    r = ctx.rng
+    cases = []
+    for _ in range(12):
+        norm = r.uniform(0.05, 1.0)
+        f = r.choice([-1, 1]) * r.uniform(0.05, 0.98) * math.sqrt(norm)
+        cases += [("float", float(f), norm), ("np.float64", np.float64(f), norm),
+                  ("complex", complex(f, r.uniform(-0.1, 0.1) * math.sqrt(norm)), norm)]
+    for sgn in (1, -1):      # the last pattern: |x|^2 = remaining norm up to rounding, either side (clamps at +-1)
+        for eps in (0.0, 1e-13, -1e-13):
+            norm = r.uniform(0.05, 1.0)
+            cases.append(("float:last", float(sgn * math.sqrt(norm) * (1 + eps)), norm))
+    for tname, x, norm in cases:
+        key = f"util._compute_matrix_angles:{tname}"
+        try:
+            a, b, p = _compute_matrix_angles(x, norm)
+            col = UGate(float(a), float(b), float(p)).to_matrix()[:, 1]
+        except Exception as e:
+            ctx.fail(key + ":raises", f"{type(e).__name__}: {e}", {"call": "util._compute_matrix_angles", "feature": repr(x), "norm": norm})
+            continue
+        want0 = complex(x) / math.sqrt(norm)
+        want1 = math.sqrt(max(norm - abs(x) ** 2, 0.0) / norm)
+        err = max(abs(col[0] - want0), abs(col[1] - want1))
+        ctx.count(f"branch:util._compute_matrix_angles direct {tname}" + (":clamped" if abs(want0) > 1 else ""))
+        if err > 1e-6:
+            ctx.fail(key + f":x={x!r}:norm={norm!r}", f"U(alpha,beta,phi)|1> = {col}, expected ({want0}, {want1})",
+                     {"call": "util._compute_matrix_angles", "feature": repr(x), "norm": norm})
+        else:
+            ctx.ok(key, nontrivial=True)
+
+
+def entry_form_cases(ctx, variants):
+    """entry paths of merge.py / pivot.py / cvoqram.py outside the (options, dictionary) grid: opt_params None and {} (class
+    defaults), a label, the static `initialize` with qubits=None and with an explicit permuted wire list on a wider host"""
+    names = {vname(*v) for v in variants}
+    for alg in ("merge", "pivot", "cvo"):
+        opts = DEFAULT_OPTS[alg]
+        if vname(alg, opts) not in names:
+            continue
+        for form in FORMS:
+            for n, m in [(2, 3), (3, 4)]:
+                sub = ctx.rng.sample(all_keys(n), m)
+                keys = order_for(ctx, alg, sub)
+                kind = ctx.rng.choice(["complex", "signed", "fsigned"])
+                amps = amplitudes(ctx, m, kind)
+                wires = None
+                if form == "static-qubits":
+                    w = layout(alg, opts, n, m)[0]
+                    wires = ctx.rng.sample(range(w + 1), w)
+                oracle_case(ctx, alg, opts, keys, amps, kind, form=form, wires=wires)
+        # the non-default options through the static entry point as well
+        for alg2, opts2 in variants:
+            if alg2 == alg and opts2 != opts:
+                n, m = 3, 5
+                keys = order_for(ctx, alg2, ctx.rng.sample(all_keys(n), m))
+                oracle_case(ctx, alg2, opts2, keys, amplitudes(ctx, m, "complex"), "complex", form="static")
+
+
+UNREACHED_JUSTIFIED = {
+    "qclib/state_preparation/pivot.py:163->168": "dead: index_nonzero has a 1 among the first n-t bits and index_zero (< 2^t) is 0 there, so the "
+                                                 "search loop always breaks (C06_pivot_step)",
+    "qclib/state_preparation/pivot.py:229->237": "dead for valid input: among the first m+1 low-block indices one is absent (pigeonhole, C06_pivot_progress)",
+    "qclib/state_preparation/cvoqram.py:88->97": "the loop always leaves through the `break` of the last pattern; normal exhaustion needs an empty dictionary",
+    "qclib/gates/initialize_sparse.py:37->38,47->53,48->49": "validation of malformed dictionaries (non-binary keys, non-tuple parameter, norm != 1): rejection is C16",
+    "qclib/util.py:247->264,165->166 (via the initializers)": "Initialize.validate_parameter converts every amplitude with complex(.), so "
+                              "CvoqramInitialize only takes the complex branch (cos_value >= 0 is never < -1); the float branch and the clamp are "
+                              "reached by the direct probe probe_matrix_angles",
+    "qclib/util.py:get_cnot_count,get_depth,get_counts,get_state,measurement,build_state_dict,random_sparse,double_sparse,_double_sparse_binary,"
+    "_count_ones,replace_all_values_with,build_list_of_quibit_objects,verify_interval_in_state_vector": "test / measurement / random-input helpers, "
+                                                                                                          "not called by the initializers",
+    "qclib/gates/ldmcu.py:44->47,59->79": "Ldmcu with zero controls: the sparse initializers call it with >= 1 control (merge emits a plain U otherwise); C04",
+    "qclib/gates/mcg.py:56->57,75->76": "Mcg with zero controls / up_to_diagonal: never requested by pivot or cvoqram; C04",
+}
+
+
 def run(ctx, nmax_or=None, n_orders=None, only=None):
     quick = ctx.quick
     variants = [v for v in VARIANTS if only is None or vname(*v) in only]
     string_ops_tie(ctx, 4 if quick else 5)
     branch_coverage_cases(ctx, variants)
+    float_typed_cases(ctx, variants)
+    entry_form_cases(ctx, variants)
+    if only is None:
+        probe_matrix_angles(ctx)
 
     # ---- tie: exhaustive n <= 3 (every subset with m >= 2), several insertion orders
     n_orders = n_orders or (2 if quick else 4)
@@ -533,7 +706,7 @@ def search(ctx, hints):
         if alg not in ("merge", "pivot", "cvo"):
             continue
         opts = {k: op[k] for k in ("aux", "method") if k in op}
-        amps = [complex(a, b) for a, b in op["amps"]]
+        amps = dec_amps(op["amps"])
         oracle_case(ctx, alg, opts, op["keys"], amps, "hint")
     if not ctx.failures:
         ctx.quick = False
@@ -556,5 +729,5 @@ def _run_oracle_only(ctx):
 
 def replay(ctx, payload):
     r = payload["replay"]
-    amps = [complex(a, b) for a, b in r["amps"]]
-    oracle_case(ctx, r["alg"], r["opts"], r["keys"], amps, "replay")
+    amps = dec_amps(r["amps"])
+    oracle_case(ctx, r["alg"], r["opts"], r["keys"], amps, "replay", form=r.get("form", "opt"), wires=r.get("wires"))
